@@ -23,13 +23,17 @@ CHECK = {
              'selectors QUICK, HEAP and inline; two rotating probes with the others), find on the unsorted input and on '
              'the reversed output (first match required), reverse checked as exact byte-wise mirror; count 0 and 1 '
              'included everywhere. A case is distinct by hash(selector, element size, input bytes) and non-trivial when '
-             'n >= 2.'),
-    'assumptions': ['comparison functions are total orders returning any negative/zero/positive int (-1/0/1 and INT_MIN/0/INT_MAX are both used)',
-                    'element sizes >= 1; count fits an int (the library indexes search/reverse with int)',
+             'n >= 2.'
+             ' Plus (harness/huge.c, the library as shipped without sanitizer) sorted arrays of 2^32+40, 2^31+40 and 1.5*2^30+40 one-byte elements in three runs (10, 20, 30): binary search through the raw-array and the vector API for each run, for absent values below/between/above (result inside the right run or -1, at most 80 comparisons, every comparator argument inside the array or the probe), linear find whose result is above 2^32, reverse of 2^31+40 elements checked as exact mirror.'),
+    'assumptions': ['the huge scenarios need 3-12 GiB of free memory; one that the machine cannot back (MemAvailable too small, or the C library refuses the request) is skipped and counted (huge.skipped.*), nothing is concluded from it',
+                    'comparison functions are total orders returning any negative/zero/positive int (-1/0/1 and INT_MIN/0/INT_MAX are both used)',
+                    'element sizes >= 1',
                     'rand() is interposed by the harness: tape for the first draws, fair xoshiro256** afterwards',
                     'gcc 12 ASan/UBSan runtimes; dbg-asan keeps the library asserts live, rel-asan is the NDEBUG -O2 build'],
     'runs': [
         {'harness': 'sort', 'sources': ['harness/sort.c'], 'cflags': ['-O2'], 'configs': both(['dbg-asan', 'rel-asan'])},
+        # objects of 2^31 .. 2^33 elements, the library as shipped (no sanitizer), own oracles (harness/huge.c)
+        {'harness': 'huge', 'sources': ['harness/huge.c'], 'mode': 'search', 'configs': both(['rel-huge']), 'workers': 3},
     ],
 }
 
